@@ -15,17 +15,20 @@ Definition obs_eqb (a b : obs) : bool :=
   Bool.eqb (o_evp a) (o_evp b) && sel_eqb (o_sel a) (o_sel b) && opt_lim_eqb (o_lim a) (o_lim b)
   && (o_adm a =? o_adm b) && Bool.eqb (o_ready a) (o_ready b) && opt_eqb robs_eqb (o_rem a) (o_rem b).
 
-Definition agree (fx fy : bool) (st : static) (str0 : strategy) (o0 : obs) (tr : list (ev * obs)) : bool :=
+Definition agree (fx fy fz : bool) (st : static) (str0 : strategy) (o0 : obs) (tr : list (ev * obs)) : bool :=
   obs_eqb (observe fx st (init (cfg st) str0)) o0
-  && forall2b obs_eqb (map snd (trace fx fy st (init (cfg st) str0) (map fst tr))) (map snd tr).
+  && forall2b obs_eqb (map snd (trace fx fy fz st (init (cfg st) str0) (map fst tr))) (map snd tr).
 
 (* clause layout: agree, bound, fallback, inforce, failing, recovery, nopanic.
-   The model is the REPAIRED behaviour (C09_clamp.diff + C09_reclamp_on_schema_update.diff). *)
+   The model is the REPAIRED behaviour (C09_clamp.diff + C09_reclamp_on_schema_update.diff +
+   C09_type_change_drops_remote_quota.diff). *)
 Definition eval (c : case) : list bool :=
-  match c with Case st str0 o0 tr => agree true true st str0 o0 tr :: case_ok st str0 o0 tr end.
+  match c with Case st str0 o0 tr => agree true true true st str0 o0 tr :: case_ok st str0 o0 tr end.
 
 (* the same cases against the models of the unrepaired trees: correspondence only *)
 Definition eval_unrepaired (c : case) : list bool :=          (* before C09_clamp.diff *)
-  match c with Case st str0 o0 tr => [agree false false st str0 o0 tr] end.
+  match c with Case st str0 o0 tr => [agree false false false st str0 o0 tr] end.
 Definition eval_noreclamp (c : case) : list bool :=           (* with C09_clamp.diff, without the reclamp *)
-  match c with Case st str0 o0 tr => [agree true false st str0 o0 tr] end.
+  match c with Case st str0 o0 tr => [agree true false false st str0 o0 tr] end.
+Definition eval_notypestop (c : case) : list bool :=          (* with both, without the type-change repair *)
+  match c with Case st str0 o0 tr => [agree true true false st str0 o0 tr] end.
